@@ -11,13 +11,14 @@ returns everything of this step.  The harness's own round-trip traffic (serial o
 removed from what monitors saw.  A disconnect is awaited through NameOwnerChanged at a separate observer
 connection (ordinary client) or two observer round trips (monitor; closing is handled within one main-loop
 iteration).  The observer is not part of the model: it only listens to NameOwnerChanged."""
-import os, re, sys, time
+import os, re, shutil, socket, sys, tempfile, time
 sys.path.insert(0, os.path.dirname(os.path.abspath(__file__)))
 import rawbus
 from rawbus import Msg, METHOD_CALL, METHOD_RETURN, ERROR, SIGNAL, F_PATH, F_INTERFACE, F_MEMBER, F_ERROR_NAME, \
     F_REPLY_SERIAL, F_DESTINATION, F_SENDER, F_SIGNATURE
 
 POLICY = """<policy context="default">
+    <allow user="*"/>
     <allow send_destination="*" eavesdrop="true"/>
     <allow eavesdrop="true"/>
     <allow own="*"/>
@@ -35,7 +36,10 @@ IFACES = {1: BUS, 2: BUS + ".Peer", 3: BUS + ".Monitoring", 4: "t.DenySend", 5: 
 MEMBERS = {1: "Hello", 2: "RequestName", 3: "ReleaseName", 4: "AddMatch", 5: "BecomeMonitor", 6: "GetId", 7: "NameOwnerChanged",
            8: "NameLost", 9: "NameAcquired", 10: "Ping", 11: "GetMachineId"}
 ERRORS = {1: ERRP + "AccessDenied", 2: ERRP + "ServiceUnknown", 3: ERRP + "NameHasNoOwner", 4: ERRP + "NoReply",
-          5: ERRP + "UnknownMethod", 6: ERRP + "UnknownInterface"}
+          5: ERRP + "UnknownMethod", 6: ERRP + "UnknownInterface", 7: ERRP + "InvalidArgs", 8: ERRP + "MatchRuleInvalid"}
+ACTIVATABLE = (4, 5)          # well-known names with a service file (Exec exits 0 without claiming the name: the activation stays pending)
+UNPRIV_UID, UNPRIV_GID = 1, 1
+INVALID_RULE = "type='signal',bogus_key='x'"
 IFACE_CODE = {v: k for k, v in IFACES.items()}
 MEMBER_CODE = {v: k for k, v in MEMBERS.items()}
 ERROR_CODE = {v: k for k, v in ERRORS.items()}
@@ -94,6 +98,8 @@ class World:
         return "?" + s
 
     def rule_text(self, ftok):
+        if ftok == "!":
+            return INVALID_RULE
         t, sd, d, i, m = ftok.split("/")
         parts = []
         if t != "-":
@@ -142,9 +148,65 @@ def is_harness_traffic(m):
     return m.fields.get(F_REPLY_SERIAL, 0) >= HIGH
 
 
+def socket_as(path, uid, gid):
+    """connect to `path` from a forked child that first drops to (uid, gid); the connected socket comes back over a socketpair"""
+    import array
+    a, b = socket.socketpair(socket.AF_UNIX, socket.SOCK_STREAM)
+    pid = os.fork()
+    if pid == 0:
+        try:
+            a.close()
+            os.setgroups([gid])
+            os.setresgid(gid, gid, gid)
+            os.setresuid(uid, uid, uid)
+            s = socket.socket(socket.AF_UNIX, socket.SOCK_STREAM)
+            s.connect(path)
+            b.sendmsg([b"x"], [(socket.SOL_SOCKET, socket.SCM_RIGHTS, array.array("i", [s.fileno()]))])
+        except BaseException as e:
+            try:
+                b.sendall(("E" + repr(e)).encode()[:200])
+            except BaseException:
+                pass
+        finally:
+            os._exit(0)
+    b.close()
+    a.settimeout(30)
+    try:
+        data, anc, _, _ = a.recvmsg(256, socket.CMSG_LEN(4))
+    finally:
+        os.waitpid(pid, 0)
+        a.close()
+    if not anc:
+        raise IOError("could not connect as uid %d: %s" % (uid, data.decode("latin-1", "replace")))
+    fd = array.array("i")
+    fd.frombytes(anc[0][2][:4])
+    return socket.socket(fileno=fd[0])
+
+
+class UidConn(rawbus.RawConn):
+    def __init__(self, path, uid, gid, timeout=5.0):
+        self.sock = socket_as(path, uid, gid)
+        self.sock.settimeout(timeout)
+        self.buf = bytearray()
+        self.fdq = []
+        self.serial = 0
+        self.unique = None
+        self.inbox = []
+        self.can_fds = False
+        self.closed = False
+        self.auth(uid, False)
+
+
 class Bus:
     def __init__(self, exe):
-        self.d = rawbus.Daemon(exe, policy=POLICY)
+        self.svc = tempfile.mkdtemp(prefix="verif_svc_")
+        os.chmod(self.svc, 0o755)
+        for k in ACTIVATABLE:
+            with open(os.path.join(self.svc, wk_name(k) + ".service"), "w") as f:
+                f.write("[D-BUS Service]\nName=%s\nExec=/bin/true\n" % wk_name(k))
+        self.d = rawbus.Daemon(exe, policy=POLICY, servicedirs="<servicedir>%s</servicedir>" % self.svc,
+                               limits='<limit name="service_start_timeout">3600000</limit>')
+        os.chmod(self.d.dir, 0o755)
         self.obs = self.connect()
         self.obs.serial = HIGH
         self.obs.hello()
@@ -152,15 +214,40 @@ class Bus:
         if r is None or r.mtype != METHOD_RETURN:
             raise IOError("observer AddMatch failed: %r" % (r,))
 
-    def connect(self, **kw):
+    def connect(self, unpriv=False, **kw):
         t_end = time.time() + 10
         while True:
             try:
+                if unpriv:
+                    return UidConn(self.d.sock, UNPRIV_UID, UNPRIV_GID)
                 return self.d.connect(**kw)
             except (ConnectionRefusedError, FileNotFoundError):
                 if time.time() > t_end or not self.d.alive():
                     raise
                 time.sleep(0.005)
+
+    def wait_children(self, timeout=10.0):
+        """a spawned activation helper (a fork of the daemon) keeps copies of every client socket until it exits, which delays
+        the EOF a client closed by the bus reads: wait until the daemon has no live children"""
+        pid = self.d.proc.pid
+        path = "/proc/%d/task/%d/children" % (pid, pid)
+        t_end = time.time() + timeout
+        while True:
+            try:
+                kids = open(path).read().split()
+            except OSError:
+                return
+            live = []
+            for k in kids:
+                try:
+                    st = open("/proc/%s/stat" % k).read().rsplit(")", 1)[1].split()[0]
+                except (OSError, IndexError):
+                    continue
+                if st != "Z":
+                    live.append(k)
+            if not live or time.time() > t_end:
+                return
+            time.sleep(0.002)
 
     def wait_gone(self, unique, timeout=10.0):
         t_end = time.time() + timeout
@@ -177,6 +264,7 @@ class Bus:
             self.obs.close()
         except Exception:
             pass
+        shutil.rmtree(self.svc, ignore_errors=True)
         return self.d.stop()
 
 
@@ -218,11 +306,14 @@ def build_event_msg(w, f):
         base[F_MEMBER] = "BecomeMonitor"
         base[F_INTERFACE] = BUS + ".Monitoring"
         rules = [] if f[3] == "-" else [w.rule_text(x) for x in f[3].split(",")]
-        return Msg(METHOD_CALL, 0, int(f[2]), base, "asu", (rules, 0))
+        flags = int(f[4]) if len(f) > 4 else 0
+        if len(f) > 5 and f[5] == "0":
+            return Msg(METHOD_CALL, 0, int(f[2]), base, "as", (rules,))        # not the signature the method wants
+        return Msg(METHOD_CALL, 0, int(f[2]), base, "asu", (rules, flags))
     return None
 
 
-def run_history(bus, events, probe_names=4):
+def run_history(bus, events, probe_names=6):
     """returns dict(steps=[{conn: [token,...]}], closed=[set of conns that read EOF at that step], sent=[token|None],
     final=own string, intact_bad=[...], monitors=[set before step])"""
     w = World()
@@ -257,6 +348,7 @@ def run_history(bus, events, probe_names=4):
         bus.obs.barrier()
         if actor_sent_on_monitor is not None:
             bus.obs.barrier()
+        bus.wait_children()
         for k in sorted(conns):
             if k not in monitors:
                 continue
@@ -294,8 +386,8 @@ def run_history(bus, events, probe_names=4):
             f = tok.split(".")
             res["monitors"].append(set(monitors))
             sent_tok = None
-            if f[0] == "C":
-                c = bus.connect()
+            if f[0] in ("C", "Cu"):
+                c = bus.connect(unpriv=(f[0] == "Cu"))
                 k = nextid
                 nextid += 1
                 hello = Msg(METHOD_CALL, 0, 1, {F_PATH: BUS_PATH, F_INTERFACE: BUS, F_MEMBER: "Hello", F_DESTINATION: BUS})
